@@ -187,7 +187,7 @@ def stageD_case(out, rng, nsample=12):
             "; ".join(d3(n["Dof"]) for n in pb["Nodes"])))
     nodes = []
     for n in out["Nodes"]:
-        if n["Ext"]:
+        if n["Ext"] and n["ID"] in pre["NodeDofs"] and min(pre["NodeDofs"][n["ID"]]) >= 0:    # a node no bar is linked to has no equations
             nodes.append("(%s, %s)" % (E.link((n["Dx"], n["Dy"], n["Rz"])), d3(pre["NodeDofs"][n["ID"]])))
     K = ["(%s%%nat, %s%%nat, %s)" % (e[0], e[1], E.q(e[2])) for e in out["KEntries"]]
     F = [E.q(v) for v in out["F"]]
